@@ -35,8 +35,9 @@ type EnvSpec struct {
 	PoolDflt int   `json:"pool_default"`
 	Ballast  int   `json:"ballast,omitempty"` // KiB of garbage allocated before the build
 	GCBefore bool  `json:"gc_before,omitempty"`
-	GOGC     int   `json:"gogc,omitempty"`    // 0 = leave
-	Pollute  int   `json:"pollute,omitempty"` // unrelated builds first, in the same process
+	GOGC     int   `json:"gogc,omitempty"`     // 0 = leave
+	Pollute  int   `json:"pollute,omitempty"`  // unrelated builds first, in the same process
+	Scramble int   `json:"scramble,omitempty"` // small objects per size class allocated and partly freed (pattern from Ballast) so that later allocations fill holes in scrambled address order
 }
 
 type Record struct {
@@ -47,6 +48,8 @@ type Record struct {
 
 var env *run.Env
 var ballastSink [][]byte
+var scrambleSink [][]byte
+var probeSink []*[96]byte
 var addrFlips, addrProbes int
 
 func TestMain(m *testing.M) {
@@ -73,7 +76,7 @@ func gen(rt *rapid.T) any {
 	r.Envs = []EnvSpec{
 		{Native: true},
 		{MapDflt: 0, PoolDflt: -1},
-		{MapDflt: 1, PoolDflt: 0, Ballast: 256, GCBefore: true},
+		{MapDflt: 1, PoolDflt: 0, Ballast: 256, GCBefore: true, Scramble: 200},
 	}
 	n := rapid.IntRange(1, 3).Draw(rt, "nenv")
 	for i := 0; i < n; i++ {
@@ -90,6 +93,7 @@ func gen(rt *rapid.T) any {
 		e.GCBefore = rapid.Bool().Draw(rt, "gc")
 		e.GOGC = rapid.SampledFrom([]int{0, 10, 100, 400}).Draw(rt, "gogc")
 		e.Pollute = rapid.IntRange(0, 2).Draw(rt, "pollute")
+		e.Scramble = rapid.SampledFrom([]int{0, 0, 50, 400}).Draw(rt, "scramble")
 		r.Envs = append(r.Envs, e)
 	}
 	return r
@@ -130,14 +134,39 @@ func buildIn(r *Record, e EnvSpec) *built {
 			ballastSink[i] = nil
 		}
 	}
+	if e.Scramble > 0 {
+		scrambleSink = scrambleSink[:0]
+		x := uint32(e.Ballast*7919 + e.Scramble + 1)
+		for sz := 16; sz <= 512; sz += 16 {
+			for k := 0; k < e.Scramble; k++ {
+				scrambleSink = append(scrambleSink, make([]byte, sz))
+			}
+		}
+		for i := range scrambleSink {
+			x = x*1664525 + 1013904223
+			if x>>28 < 9 { // free a bit more than half, pseudo-randomly
+				scrambleSink[i] = nil
+			}
+		}
+		runtime.GC()
+		runtime.GC()
+	}
 	if e.GCBefore {
 		runtime.GC()
 	}
-	// does the layout differ at all? two probe allocations, address order
-	a, b := new([64]byte), new([64]byte)
-	addrProbes++
-	if fmt.Sprintf("%p", a) > fmt.Sprintf("%p", b) {
-		addrFlips++
+	// does the layout differ at all? two allocations of one size class with other
+	// allocations of that class in between (as two imported packages would be)
+	{
+		a := new([96]byte)
+		for i := 0; i < 300; i++ {
+			probeSink = append(probeSink, new([96]byte))
+		}
+		b := new([96]byte)
+		probeSink = probeSink[:0]
+		addrProbes++
+		if fmt.Sprintf("%p", a) > fmt.Sprintf("%p", b) {
+			addrFlips++
+		}
 	}
 	for i := 0; i < e.Pollute; i++ {
 		p := polluters[i%len(polluters)]
@@ -439,7 +468,7 @@ func simplify(rec any) []any {
 		out = append(out, &c)
 	}
 	for i, e := range r.Envs {
-		if len(e.MapOrder) > 0 || len(e.Pool) > 0 || e.Ballast > 0 || e.Pollute > 0 || e.GOGC > 0 {
+		if len(e.MapOrder) > 0 || len(e.Pool) > 0 || e.Ballast > 0 || e.Pollute > 0 || e.GOGC > 0 || e.Scramble > 0 {
 			c := *r
 			c.Envs = append([]EnvSpec{}, r.Envs...)
 			c.Envs[i] = EnvSpec{Native: e.Native, MapDflt: e.MapDflt, PoolDflt: e.PoolDflt}
